@@ -821,7 +821,27 @@ def check_bypasses(eng, rep, rule: str, prims: Prims, disp: FuncInfo, P: List[st
                 continue
             if not isinstance(it.ret, WordV):
                 conv.append(K.split(".")[-1])
+        # classes that the bypass body itself singles out afterwards (`if isinstance(elem_type, SignedType): <convert the words>`):
+        # the conversion is then done in place, on values; whether it equals the handler's is a value question, not decided here
+        later = set()
+
+        def nested(es):
+            for e_ in es:
+                if e_[0] == "if":
+                    for neg_, src_, quals_ in _isinst_in(e_[1]):
+                        if neg_ is False:
+                            later.update(K for K in admitted if any(eng.prog.is_subclass(K, q) for q in quals_))
+                    nested(e_[2])
+                elif e_[0] == "loop":
+                    nested(e_[2])
+        nested(body)
+        post = [k for k in conv if any(K.split(".")[-1] == k.rstrip("?") for K in later)]
+        conv = [k for k in conv if k not in post]
         txt = canon_effects(body, "dec")
+        if not conv and post:
+            rep.undecided(rule, disp.file, disp.qual, "Eff_dec(%s): [%s] instead of Rec, for element classes {%s}" % (kn, txt, ", ".join(sorted(k.split(".")[-1] for k in admitted))),
+                          "the container decoder reads raw words and then treats %s separately; that this in-place conversion equals the handler's is not decided" % ", ".join(post))
+            continue
         if conv and not any(x.endswith("?") for x in conv):
             rep.violation(rule, disp.file, disp.qual, "Eff_dec(%s): [%s] instead of Rec, for element classes {%s}" % (kn, txt, ", ".join(sorted(k.split(".")[-1] for k in admitted))),
                           "the container decoder reads its elements directly instead of through the type dispatcher, for a condition that admits %s whose handler converts the word it reads (sign reconstruction / unpack / lookup): those elements decode to the raw unsigned bytes" % ", ".join(conv))
